@@ -227,6 +227,21 @@ CHECKS["C06"] = {
     ],
 }
 
+CHECKS["C14"] = {
+    "pkg": "c14",
+    "level": "exploration",
+    "technique": "generated lock populations (writers crashed at drawn points) x GC runs with drawn safe point, concurrency, scan limit and splits during the scan; oracle = invariants over the store scan and the raw MVCC records against commit points read off the store-side trace; plus model-based properties of the range task (exact cover), the delete-range task (ordered-map model) and the safe-point check (threshold predicate)",
+    "level_text": "Four generated checks: GC lock resolution on mocktikv and unistore (async-commit / 1PC leftovers), range-task cover, delete-range against a map model, refusal of reads below the cached transaction safe point on all four read paths.",
+    "level_note": "Trusted: mocktikv / unistore stores and their PD mocks (AdvanceTxnSafePoint, UpdateGCSafePoint). The GC worker of TiDB (delete-ranges phase, safe point computation) is outside client-go.",
+    "tests": [
+        {"name": "TestGCLocks", "quick": 800, "thorough": 3000, "shards": 16, "timeout_q": 400},
+        {"name": "TestGCLocksUni", "quick": 400, "thorough": 1500, "shards": 16, "timeout_q": 400},
+        {"name": "TestRangeTask", "quick": 1500, "thorough": 20000, "shards": 8, "timeout_q": 400},
+        {"name": "TestDeleteRange", "quick": 400, "thorough": 5000, "shards": 8, "timeout_q": 400},
+        {"name": "TestSafePointRefusal", "quick": 300, "thorough": 2000, "shards": 2, "timeout_q": 200},
+    ],
+}
+
 # properties without a registered check, with the reason (kept current by hand)
 NOT_CLAIMED = {}
 
